@@ -292,6 +292,15 @@ pub fn judge(
 				class: format!("recovery-open-fails:{pm}:{}", err_bucket(e)),
 				text: format!("{ctx} => open: {e}"),
 			});
+			// a store that cannot be opened presents none of the commits it acknowledged
+			let must = if spec.is_power() { ob.durable } else { ob.acked };
+			if must > 0 {
+				out.push(Finding {
+					property: "C02",
+					class: format!("acked-commit-unreadable:recovery-open-fails:{pm}"),
+					text: format!("{ctx} => open: {e} ({must} acknowledged commits cannot be read)"),
+				});
+			}
 			return out;
 		}
 		Ok(c) => c,
@@ -459,6 +468,28 @@ pub fn short_workloads(maxlen: usize) -> Vec<Vec<Wop>> {
 	out
 }
 
+/// Synced-flush family: an eventual commit made durable by a later `flush_wal(true)`, after every
+/// kind of event that may have switched the WAL segment.
+pub fn sync_workloads() -> Vec<Vec<Wop>> {
+	let first = [Wop::W(vec![Write::set(b"a", &tok(0))], false), Wop::W(vec![Write::set(b"b", &tok(0))], true)];
+	let middle = [Wop::P(Phys::FlushAll), Wop::P(Phys::Rotate), Wop::P(Phys::Reopen), Wop::P(Phys::Compact), Wop::P(Phys::Drain), Wop::Sync, Wop::W(vec![Write::set(b"b", &tok(1))], true)];
+	let last = [
+		Wop::W(vec![Write::set(b"a", &tok(2))], false),
+		Wop::W(vec![Write::set(b"a", &tok(2)), Write::set(b"b", &tok(2))], false),
+		Wop::W(vec![Write::new(Kind::Delete, b"a", b"")], false),
+	];
+	let mut out = vec![];
+	for x in &first {
+		for y in &middle {
+			for z in &last {
+				out.push(vec![x.clone(), y.clone(), z.clone(), Wop::Sync]);
+				out.push(vec![x.clone(), y.clone(), z.clone(), Wop::Sync, Wop::W(vec![Write::set(b"c", &tok(4))], false)]);
+			}
+		}
+	}
+	out
+}
+
 /// Rotation families: many small commits against a tiny memtable so that the arena fills up
 /// inside `apply` (the commit that triggers the rotation is marked by the trace).
 pub fn rotation_workloads(tier: Tier) -> Vec<(OptSet, Vec<Wop>)> {
@@ -470,6 +501,8 @@ pub fn rotation_workloads(tier: Tier) -> Vec<(OptSet, Vec<Wop>)> {
 		vec![Wop::P(Phys::FlushOldest), Wop::P(Phys::Drain)],
 		vec![Wop::P(Phys::Drain)],
 		vec![Wop::P(Phys::Drain), Wop::P(Phys::Compact)],
+		// eventual commits after the rotation, then a synced WAL flush: they are durable from there on
+		vec![Wop::W(vec![Write::set(b"zz1", b"after-rotation-1")], false), Wop::W(vec![Write::set(b"zz2", b"after-rotation-2")], false), Wop::Sync, Wop::W(vec![Write::set(b"zz3", b"after-sync")], false)],
 	];
 	let shapes: Vec<(usize, bool)> = if tier == Tier::Quick { vec![(70, false), (30, true)] } else { vec![(70, false), (30, true), (140, false), (60, true)] };
 	for (n, multi) in shapes {
@@ -713,6 +746,15 @@ pub fn plan(tier: Tier, focus: &str) -> CrashPlan {
 			forced_height: 1,
 		});
 	}
+	if focus != "C07" || tier == Tier::Thorough {
+		for ops in sync_workloads() {
+			workloads.push(Workload {
+				opt: base.clone(),
+				ops,
+				forced_height: 1,
+			});
+		}
+	}
 	if tier == Tier::Thorough {
 		// the short family again on other option sets, length <= 3
 		for opt in [OptSet::base("L3-vlog8-64").levels(3).with_vlog(8, 64), OptSet::base("L2-versioned-index").versioned(0, true), OptSet::base("L2-flush-on-close").flush_close(true)] {
@@ -783,18 +825,24 @@ pub fn run_into(report: &mut Report, property: &'static str, tier: Tier, cap_s: 
 	let mut traced = traced.into_inner().unwrap();
 	traced.sort_by_key(|t| t.0);
 	let rotations = std::sync::atomic::AtomicU64::new(0);
+	let per_workload_seeds = (plan.gen2_cap * 4 / plan.workloads.len().max(1)).max(6);
 	traced.par_iter().for_each(|(i, t)| {
 		if budget.elapsed() > gen1_budget_s {
 			skipped.fetch_add(1, std::sync::atomic::Ordering::Relaxed);
 			return;
 		}
-		let r = judge_workload(t, 1, plan.power, plan.v2, true, &seen, &budget);
+		let mut r = judge_workload(t, 1, plan.power, plan.v2, true, &seen, &budget);
+		// bound the memory held for generation-2 seeds: per workload keep the images whose recovery
+		// had most to repair (torn first), deterministically
+		r.images.sort_by_key(|im| (im.3, im.0));
+		let distinct_here = r.images.len() as u64;
+		r.images.truncate(per_workload_seeds);
 		let mut s = stats.lock().unwrap();
 		s.workloads += 1;
 		s.crash_points += r.points;
 		s.specs += r.specs;
 		s.recoveries += r.recoveries;
-		s.distinct_images += r.images.len() as u64;
+		s.distinct_images += distinct_here;
 		drop(s);
 		rotations.fetch_add(r.rotations, std::sync::atomic::Ordering::Relaxed);
 		nontrivial.fetch_add(r.nontrivial, std::sync::atomic::Ordering::Relaxed);
@@ -816,8 +864,10 @@ pub fn run_into(report: &mut Report, property: &'static str, tier: Tier, cap_s: 
 	// generation 2: crash -> recover -> commit -> crash, from distinct recovered images
 	let mut seeds = gen2_seeds.into_inner().unwrap();
 	// torn images first (their recovery repairs the log), then by size
-	seeds.sort_by_key(|s| (s.3, s.1.names.len(), s.1.hash()));
-	seeds.dedup_by_key(|s| s.1.hash());
+	let mut keyed: Vec<(u64, (OptSet, Fs, BTreeMap<Vec<u8>, Vec<u8>>, u8))> = seeds.drain(..).map(|s| (s.1.hash(), s)).collect();
+	keyed.sort_by_key(|(h, s)| (s.3, s.1.names.len(), *h));
+	keyed.dedup_by_key(|(h, _)| *h);
+	let mut seeds: Vec<_> = keyed.into_iter().map(|(_, s)| s).collect();
 	let total_seeds = seeds.len();
 	seeds.truncate(plan.gen2_cap);
 	let gen2_ops = vec![
@@ -899,7 +949,7 @@ pub fn run_into(report: &mut Report, property: &'static str, tier: Tier, cap_s: 
 	let sk = skipped.load(std::sync::atomic::Ordering::Relaxed);
 	report.add_u("evaluations", s.specs);
 	report.add_u("distinct_nontrivial", nontrivial.load(std::sync::atomic::Ordering::Relaxed));
-	report.set("crash_rule", json!("workloads = all op lists of length <= L over {set a, set b (Immediate), set a+b, delete a, flush-all, compaction, rotate, drain, reopen, flush_wal(sync)} + rotation families (tiny memtable, single- and 3-key transactions, tails of flush-oldest/drain/compact); crash points = after every traced file-system call; images = process crash, power loss V0 (all unsynced data dropped), V2 (one file keeps each proper prefix of its unsynced writes, last kept write torn at 1, half, len-1 bytes; others dropped/kept); every distinct image is recovered once (open, crash, open, probe commit, flush, close, open); non-trivial = distinct images containing a WAL that recovery had to replay; generation 2 = a fixed 4-op workload traced from distinct recovered images, process crash points"));
+	report.set("crash_rule", json!("workloads = all op lists of length <= L over {set a, set b (Immediate), set a+b, delete a, flush-all, compaction, rotate, drain, reopen, flush_wal(sync)} + synced-flush family ([commit, segment-switching event, eventual commit, flush_wal(sync)(, commit)]) + rotation families (tiny memtable, single- and 3-key transactions, tails of flush-oldest/drain/compact/eventual commits + flush_wal(sync)); crash points = after every traced file-system call; images = process crash, power loss V0 (all unsynced data dropped), V2 (one file keeps each proper prefix of its unsynced writes, last kept write torn at 1, half, len-1 bytes; others dropped/kept); every distinct image is recovered once (open, crash, open, probe commit, flush, close, open); non-trivial = distinct images containing a WAL that recovery had to replay; generation 2 = a fixed 4-op workload traced from distinct recovered images, process crash points"));
 	if report.coverage.get("rule").is_none() {
 		report.set("rule", report.coverage.get("crash_rule").cloned().unwrap());
 	}
